@@ -1,6 +1,58 @@
 import WhVerif.Util.Proto
+import WhVerif.Model.C04Json
+import WhVerif.Model.C09
 namespace WhVerif.Driver.C09
-open Lean WhVerif.Proto
+open Lean WhVerif.Proto WhVerif.C04 WhVerif.C04.Json WhVerif.C09
+
+def ofPhase : Option Phase → Json
+  | none => Json.null
+  | some p => Json.mkObj [("block", match p.block with | some b => ofInt b | none => Json.null),
+                          ("alleles", ofList ofOptNat p.alleles)]
+
+def phase? : Json → Option (Option Phase)
+  | Json.null => some none
+  | j => do
+    let block ← match j.getObjVal? "block" with
+      | .ok Json.null => some none
+      | .ok b => (asInt? b).map some
+      | _ => none
+    let alleles ← (← getList? j "alleles").mapM allele?
+    some (some ⟨block, alleles⟩)
+
+def ofErr : Err → Json
+  | .hpFormat => Json.mkObj [("error", Json.str "hpFormat")]
+  | .mixed => Json.mkObj [("error", Json.str "mixed")]
+  | .notSorted => Json.mkObj [("error", Json.str "notSorted")]
+
+def varPhase? (j : Json) : Option VarPhase := do
+  some ⟨← getNat? j "pos", ← getBool? j "wanted", ← getNatList? j "gcode", ← phase? (← getObj? j "phase")⟩
+
+def ofRow (r : Row) : Json :=
+  Json.mkObj [("pos", ofNat r.pos), ("ref", Json.str r.ref), ("alt", Json.str r.alt),
+    ("calls", ofList (fun gp => Json.arr #[ofNatList gp.1, ofPhase gp.2]) r.calls)]
+
 /-- ops of property C09 are named `c09.<name>`; return `none` for ops that are not ours -/
-def handle (_op : String) (_j : Json) : Option Json := none
+def handle (op : String) (j : Json) : Option Json :=
+  if op == "c09.decode" then
+    match (getObj? j "format").bind strList?, (getObj? j "call").bind call? with
+    | some fmt, some (_, c) =>
+      match callPhases fmt c with
+      | .ok (hp, gp) => some (Json.mkObj [("hp", ofPhase hp), ("gtps", ofPhase gp)])
+      | .error e => some (ofErr e)
+    | _, _ => some badInput
+  else if op == "c09.read" then
+    match getBool? j "onlySnvs", (getList? j "records").bind (·.mapM record?) with
+    | some os, some rs =>
+      match readChrom os none none rs with
+      | .ok (_, rows) => some (Json.mkObj [("rows", ofList ofRow rows)])
+      | .error e => some (ofErr e)
+    | _, _ => some badInput
+  else if op == "c09.reads" then
+    match (getList? j "rows").bind (·.mapM varPhase?) with
+    | some rows =>
+      some (ofList (fun x => Json.arr #[match x.1 with | some b => ofInt b | none => Json.null, ofNat x.2.1,
+                                         ofList (fun pa => Json.arr #[ofNat pa.1, ofOptNat pa.2]) x.2.2])
+              (blocksAsReads 2 rows))
+    | none => some badInput
+  else none
 end WhVerif.Driver.C09
